@@ -271,6 +271,13 @@ def _process_properties(  # noqa: PLR0912, PLR0911
             if naming_error is not None:
                 return naming_error
 
+        resulting = {**properties, merged_prop.name: merged_prop}
+        if len({prop.python_name for prop in resulting.values()}) != len(resulting):
+            return PropertyError(
+                header="Conflicting property names",
+                detail=f"Could not find a unique python_name for property {merged_prop.name} of {class_name}",
+            )
+
         properties[merged_prop.name] = merged_prop
         return None
 
